@@ -142,6 +142,10 @@ def with_decoy_relationships(parts, rng):
                         return [t[0], t[1], ["DECOY"]]
                     return [t[0], t[1], [retext(c) for c in t[2]]]
                 parts.append({"name": decoy_name, "xml": retext(src["xml"])})
+                # the decoy's own relationships (pictures and links inside notes resolve through the part's .rels)
+                own = next((p for p in parts if p["name"] == "word/_rels/%s.xml.rels" % kind), None)
+                if own is not None:
+                    parts.append(dict(own, name="word/_rels/%s_decoy.xml.rels" % kind))
         decoy = el("relationships:Relationship", [("Id", "rIdDecoy" + kind), ("Type", ty), ("Target", rng.choice([kind + "_decoy.xml", "/word/%s_decoy.xml" % kind]))])
         missing = el("relationships:Relationship", [("Id", "rIdGone" + kind), ("Type", ty), ("Target", kind + "_gone.xml")])
         where = rng.choice(["decoy-first", "decoy-last", "missing-first", "missing-first-decoy-last"])
